@@ -270,12 +270,27 @@ theorem C16_rotation_proper (svd : M3 ℚ → M3 ℚ × M3 ℚ)
     simp only [h1, bind, Except.bind] at h
     split at h
     · cases h
-    · have := Except.ok.inj h
-      subst this
-      intro R hR
-      simp only [List.mem_map] at hR
-      obtain ⟨p, _, rfl⟩ := hR
-      exact C16_proper _ _ (hsvd _).1 (hsvd _).2
+    · split at h
+      · cases h
+      · have := Except.ok.inj h
+        subst this
+        intro R hR
+        simp only [List.mem_map] at hR
+        obtain ⟨p, _, rfl⟩ := hR
+        exact C16_proper _ _ (hsvd _).1 (hsvd _).2
+
+/-- **Different atom counts are refused.**  Two structures with different numbers of (selected)
+atoms, neither of them a single atom, make `_get_rotation_matrices` — and hence `superimpose` — raise
+`ValueError` (numpy cannot broadcast the outer products); no fit is reported. -/
+theorem C16_atom_count_rejects (svd : M3 ℚ → M3 ℚ × M3 ℚ) (f m : List (V3 ℚ))
+    (hne : f.length ≠ m.length) (hf : f.length ≠ 1) (hm : m.length ≠ 1) :
+    getRotation svd [f] [m] = .error .valueError := by
+  simp [getRotation, bzip, bind, Except.bind, hne, hf, hm]
+
+/-- …and equal counts are never refused by that step. -/
+theorem C16_atom_count_accepts (svd : M3 ℚ → M3 ℚ × M3 ℚ) (f m : List (V3 ℚ)) (h : f.length = m.length) :
+    getRotation svd [f] [m] = .ok [correct (svd (cov1 f m)).1 (svd (cov1 f m)).2] := by
+  simp [getRotation, bzip, bind, Except.bind, pure, Except.pure, h]
 
 /-! ## The translation is optimal for any rotation -/
 
